@@ -454,10 +454,14 @@ class AsyncBuffer(AsyncIterable):
             return
         self._stopped.set()
         tasks = self._tasks
-        while not tasks.empty():
-            _ = tasks.get()
-        # `tasks` is now empty. The thread needs to put at most one
-        # more element into the queue, which is safe.
+        # The worker may be blocked in `put` and may still have several items
+        # to put (the element in hand plus the end markers), which may not fit
+        # in the queue. Keep draining until the worker has exited.
+        while self._worker.is_alive():
+            try:
+                _ = tasks.get(timeout=0.01)
+            except queue.Empty:
+                pass
         self._worker.join()
         self._stopped = None
 
